@@ -125,12 +125,20 @@ func ProcessSyncAggregate(ctx context.Context, spec *common.Spec, epc *common.Ep
 	if err != nil {
 		return err
 	}
-	// Note: the minimum effective balance of the proposer is sufficient
-	// to not result in differences from spec operations
+	proposer, err := epc.GetBeaconProposer(currentSlot)
+	if err != nil {
+		return err
+	}
+	// The proposer reward is applied per participant, in committee order, as the spec does: the proposer may
+	// itself be a non-participating committee member, and its penalty is clipped at a zero balance, so the
+	// order of its rewards and its penalty is observable.
 	for i := uint64(0); i < uint64(spec.SYNC_COMMITTEE_SIZE); i++ {
 		validatorIndex := epc.CurrentSyncCommittee.Indices[i]
 		if agg.SyncCommitteeBits.GetBit(i) {
 			if err := common.IncreaseBalance(bals, validatorIndex, participantReward); err != nil {
+				return err
+			}
+			if err := common.IncreaseBalance(bals, proposer, proposerReward); err != nil {
 				return err
 			}
 		} else {
@@ -138,15 +146,6 @@ func ProcessSyncAggregate(ctx context.Context, spec *common.Spec, epc *common.Ep
 				return err
 			}
 		}
-	}
-	// Apply proposer rewards
-	proposer, err := epc.GetBeaconProposer(currentSlot)
-	if err != nil {
-		return err
-	}
-	proposerRewardSum := proposerReward * common.Gwei(len(participantPubkeys))
-	if err := common.IncreaseBalance(bals, proposer, proposerRewardSum); err != nil {
-		return err
 	}
 	return nil
 }
